@@ -910,6 +910,13 @@ impl Check for C01 {
                 idx += 1;
             }
         }
+        // ONE deserializer / stream polled again and again after errors (a skip-the-bad-record
+        // loop): state that leaks per error (depth budgets, marks, scratch) shows only there
+        for kind in 0..8i64 {
+            if g.mine(5000 + kind as u64) {
+                emit(Case::with("reuse", vec![], &[kind, 300 + 40 * kind]));
+            }
+        }
         // generated + mutated documents
         let n = g.count(20_000, 1_500_000);
         for k in 0..n {
@@ -977,6 +984,53 @@ impl Check for C01 {
                 ctx.class(if c.p(1) > 128 { "input:deep>128" } else { "input:deep<=128" });
                 run_input(ctx, &b, true);
                 ctx.sample("deep");
+            }
+            "reuse" => {
+                let (kind, calls) = (c.p(0), c.p(1) as usize);
+                // the input: records that fail in different ways, the deserializer is asked for
+                // the next record `calls` times whatever happened
+                let bad: String = match kind % 4 {
+                    0 => "[".repeat(600),
+                    1 => "{\"a\":".repeat(400),
+                    2 => "\"\\q\" \"\\ud800 \" [\"x\\u12\"] ".repeat(120),
+                    _ => "[1,] {\"a\" 1} tru 01 \"\u{1}\" ".repeat(100),
+                };
+                let text = format!("{} [1,{{\"k\":\"v\"}}] ", bad);
+                let exb = exact(text.as_bytes());
+                ctx.class("input:reused-deserializer");
+                ctx.nontrivial();
+                macro_rules! poll {
+                    ($name:expr, $t:ty, $de:expr) => {{
+                        let mut de = $de;
+                        let r = guarded(|| {
+                            let mut n_err = 0usize;
+                            for _ in 0..calls {
+                                match de.deserialize::<$t>() {
+                                    Ok(_) => {}
+                                    Err(e) => {
+                                        n_err += 1;
+                                        let _ = e.to_string();
+                                        let _ = format!("{:?} {} {} {}", e.classify(), e.offset(), e.line(), e.column());
+                                    }
+                                }
+                            }
+                            n_err
+                        });
+                        if let Err((sig, msg)) = r {
+                            ctx.fail(&format!("{}:{}", $name, sig), format!("panic in a loop over one reused deserializer ({} calls): {}", calls, msg));
+                        }
+                    }};
+                }
+                if kind < 4 {
+                    poll!("reuse:Deserializer<Value>", Value, Deserializer::from_slice(&exb));
+                    poll!("reuse:Deserializer<serde_json::Value>", serde_json::Value, Deserializer::from_slice(&exb));
+                    poll!("reuse:Deserializer<Vec<Vec<String>>>", Vec<Vec<String>>, Deserializer::from_slice(&exb));
+                } else {
+                    poll!("reuse:Deserializer(rawnumber,lossy)<Value>", Value, Deserializer::from_slice(&exb).use_rawnumber().utf8_lossy());
+                    poll!("reuse:Deserializer<OwnedLazyValue>", OwnedLazyValue, Deserializer::from_slice(&exb));
+                    poll!("reuse:Deserializer<IgnoredAny>", serde::de::IgnoredAny, Deserializer::from_slice(&exb));
+                }
+                ctx.sample("reuse");
             }
             "num" => {
                 let mut r = crate::rng::Rng::new(c.p(0) as u64);
